@@ -154,7 +154,23 @@ class Judge(object):
                 return True, ""
             return False, "assignment with effects: %s" % ast.unparse(st)[:80]
         if isinstance(st, (ast.Break, ast.Continue)):
-            return True, ""       # steers only the loop that computes a flag / emits comments
+            # leaving (or cutting short) a loop under a documentation option is harmless only if everything the loop does
+            # is itself documentation: it computes option-derived flags or emits comments.  Otherwise the option decides
+            # how much of the loop's other work is done.
+            cur = st
+            loop = None
+            while id(cur) in self.parents:
+                cur = self.parents[id(cur)]
+                if isinstance(cur, (ast.For, ast.While)):
+                    loop = cur
+                    break
+            if loop is None:
+                return False, "break/continue outside a loop"
+            ok, why = self.loop_is_documentation_only(loop, locals_ok)
+            if not ok:
+                return False, "%s under a documentation/debug option leaves a loop that also does other work (%s)" % (
+                    type(st).__name__.lower(), why)
+            return True, ""
         if isinstance(st, ast.If):
             for b in st.body + st.orelse:
                 ok, why = self.stmt_comment_only(b, locals_ok)
@@ -259,12 +275,36 @@ class Judge(object):
                 out.add(pn)
         return out
 
+    def loop_is_documentation_only(self, loop, locals_ok):
+        def flag_only(b):
+            if isinstance(b, (ast.Break, ast.Continue, ast.Pass)):
+                return True, ""
+            if isinstance(b, ast.If):
+                for x in b.body + b.orelse:
+                    ok, why = flag_only(x)
+                    if not ok:
+                        return ok, why
+                return True, ""
+            if isinstance(b, ast.Assign):
+                if all(isinstance(t, ast.Name) and t.id in self.tainted for t in b.targets) and self.pure_expr(b.value):
+                    return True, ""
+                return False, "it assigns %s" % ast.unparse(b)[:60]
+            if isinstance(b, ast.Expr):
+                return self.stmt_comment_only(b, set(locals_ok))
+            return False, "it contains a %s statement" % type(b).__name__
+        for b in loop.body:
+            ok, why = flag_only(b)
+            if not ok:
+                return False, why
+        return True, ""
+
     def judge_function(self, fn, func):
         self.comment_lists = self.find_comment_lists(func) | self.param_comment_lists(func)
         parents = {}
         for n in ast.walk(func):
             for c in ast.iter_child_nodes(n):
                 parents[id(c)] = n
+        self.parents = parents
         tainted = set()      # locals holding an option value (or computed only from them)
         # collect tainted locals: x = <option read> / x = True|False under an option test
         for n in ast.walk(func):
@@ -282,6 +322,7 @@ class Judge(object):
                             if st.targets[0].id not in tainted:
                                 tainted.add(st.targets[0].id)
                                 changed = True
+        self.tainted = tainted
         # flag locals: assignments `x = False` elsewhere keep them boolean flags
         reads = [n for n in ast.walk(func) if self.is_opt_read(n) or (isinstance(n, ast.Name) and isinstance(n.ctx, ast.Load) and n.id in tainted)]
         seen_ifs = set()
